@@ -4,6 +4,13 @@ claim('C07',
       'Bounded proof per obligation: cbmc explores every value of the symbolic call sizes, flags, engine supply and API state within the stated bounds and checks every pointer access, shift, division, signed overflow and float->int conversion of the real soxr.c/data-io.c (and kernels) plus the buffer-contract assertions; inductive-step form (one call from any API state) so that history length is not a bound.',
       'Trusted: cbmc/SAT; the abstract engine contract between soxr.c and the engines (proved on the engine side by the L2/L3 obligations); constant-size caller allocations with canaries (over-reads that never reach the engine are outside the claim); frames per call <= 3-4; io_ratio in [2^-12,2^12].')
 
-for pid in ['C01', 'C02', 'C03', 'C04', 'C05', 'C06', 'C08', 'C09', 'C10', 'C11', 'C12', 'C13', 'C14', 'C15', 'C16',
-            'C17', 'C18', 'C19', 'C20']:
+claim('C11',
+      'Bounded proof per obligation over the real conversion kernels: one sample with every bit symbolic (all 2^32 float / 2^64 double patterns incl. NaN/inf/ties/limits) at chosen positions of the 16-sample block, its clip fix-up re-run and the tail loop, for all 12 kernels (2 precisions x int32/int16/int16-dither x mono/strided) and all 16 de-interleave paths; oracle from the property text (nearest, saturate, clip count, dither < 1.5 LSB).',
+      'Trusted: cbmc float semantics (IEEE RNE); x87 FIST model (validated natively against the asm of the current rint.h on every run); other samples of the block concrete; n in {2,17,33}.')
+claim('C18',
+      'Bounded proof, inductive step: one soxr_output call of the real soxr.c from any API state with a nondeterministic input function (short supply, end, failure at any of <= 4 calls) over the abstract engine: request <= max_ilen, consume-once-in-order (ghost sequence numbers checked inside the engine), no call after end/failure/in error state, error string set.',
+      'Trusted: cbmc; abstract engine contract; frames per call <= 3 (4 thorough); datatypes/layout/engine/channels enumerated per obligation.')
+
+for pid in ['C01', 'C02', 'C03', 'C04', 'C05', 'C06', 'C08', 'C09', 'C10', 'C12', 'C13', 'C14', 'C15', 'C16',
+            'C17', 'C19', 'C20']:
     na(pid, 'check under construction in this session (breadth-first build order of DESIGN.md section 12); not yet claimed')
